@@ -10,8 +10,10 @@ func vReqBlock(digit byte, extra ...byte) []byte {
 }
 
 var (
-	vInsertKV = []byte{0x40, 0x01, 'k', 0x01, 'v'} // literal with incremental indexing: k: v
-	vRefKV    = []byte{0xbe}                        // indexed field 62: the entry above
+	vInsertKV     = []byte{0x40, 0x01, 'k', 0x01, 'v'} // literal with incremental indexing: k: v
+	vRefKV        = []byte{0xbe}                       // indexed field 62: the entry above
+	vInsertMN     = []byte{0x40, 0x01, 'm', 0x01, 'n'} // a later insertion: m: n
+	vRefKVAfterMN = []byte{0xbf}                       // k: v is index 63 once m: n has been inserted
 )
 
 // vOffence returns a header-block fragment that makes a request malformed
@@ -52,6 +54,7 @@ func VerifH_C09_isolate() {
 	}
 	s := vStartServer(max)
 	var all []*FrameHeader
+	ref := vRefKV // how stream 5 refers to the entry k: v
 	get := func() *vReaction {
 		fr := s.replies()
 		all = append(all, fr...)
@@ -79,12 +82,19 @@ func VerifH_C09_isolate() {
 		s.hold = true
 		s.send(vFrame(0x1, 0x5, 1, vReqBlock('1')))
 		get()
-		s.send(vFrame(0x1, 0x4, 3, append(vBlock(true, '3'), vInsertKV...)))
+		blk3 := append(vBlock(true, '3'), vInsertKV...)
+		// the refused request's header block may be split at any byte
+		if cut := vRange(0, len(blk3)); cut == len(blk3) {
+			s.send(vFrame(0x1, 0x4, 3, blk3))
+		} else {
+			s.send(vFrame(0x1, 0x0, 3, blk3[:cut]))
+			s.send(vFrame(0x9, 0x4, 3, blk3[cut:]))
+		}
 		r := get()
 		vAssert(!r.goaway && r.rst[3] == RefusedStreamError, "C09.isolate.refused-stream")
 		// what the peer had already sent on it before it saw the refusal: the
 		// body, a WINDOW_UPDATE, its own cancellation, or a PRIORITY frame
-		late := vRange(0, 3)
+		late := vRange(0, 4)
 		sent := 0
 		// the slot may have become free in the meantime
 		freed := vBool()
@@ -102,8 +112,12 @@ func VerifH_C09_isolate() {
 			s.send(vFrame(0x8, 0x0, 3, []byte{0, 0, 0, 9}))
 		case 2:
 			s.send(vFrame(0x3, 0x0, 3, []byte{0, 0, 0, 8}))
-		default:
+		case 3:
 			s.send(vFrame(0x2, 0x0, 3, []byte{0, 0, 0, 1, 7}))
+		default:
+			// trailers, with a field that goes into the dynamic table
+			s.send(vFrame(0x1, 0x5, 3, vInsertMN))
+			ref = vRefKVAfterMN
 		}
 		r = get()
 		vNote(fmt.Sprintf("late frame %d on refused stream: goaway=%v/%d rst=%v", late, r.goaway, r.goawayCode, r.rst))
@@ -126,12 +140,20 @@ func VerifH_C09_isolate() {
 		s.send(vFrame(0x0, 0x0, 3, []byte("12345")))
 		r := get()
 		vAssert(!r.goaway && r.rst[3] == EnhanceYourCalm, "C09.isolate.body-too-large-is-a-stream-error")
-		s.send(vFrame(0x0, 0x1, 3, []byte("6"))) // sent before the peer saw our RST_STREAM
+		// sent before the peer saw our RST_STREAM: the rest of the body, or the trailers
+		more := 0
+		if vBool() {
+			s.send(vFrame(0x0, 0x1, 3, []byte("6")))
+			more = 1
+		} else {
+			s.send(vFrame(0x1, 0x5, 3, vInsertMN))
+			ref = vRefKVAfterMN
+		}
 		r = get()
-		vNote(fmt.Sprintf("late DATA: goaway=%v/%d rst=%v", r.goaway, r.goawayCode, r.rst))
-		vAssert(!r.goaway, "C09.isolate.data-after-our-reset-is-ignored")
+		vNote(fmt.Sprintf("late frame (more=%d): goaway=%v/%d rst=%v", more, r.goaway, r.goawayCode, r.rst))
+		vAssert(!r.goaway, "C09.isolate.frames-after-our-reset-are-not-a-connection-error")
 		inc, _ := vWindowUpdates(all, 0, "C09.isolate.conn")
-		vAssert(int64(1<<22)-6+inc == int64(s.sc.currentWindow), "C09.isolate.discarded-data-is-accounted-to-the-connection-window")
+		vAssert(int64(1<<22)-5-int64(more)+inc == int64(s.sc.currentWindow), "C09.isolate.discarded-data-is-accounted-to-the-connection-window")
 	case 3: // cancelled by the peer while its handler runs
 		s.hold = true
 		s.send(vFrame(0x1, 0x5, 3, vReqBlock('3', vInsertKV...)))
@@ -155,7 +177,7 @@ func VerifH_C09_isolate() {
 	}
 
 	// a later request that relies on the dynamic-table entry of stream 3's block
-	s.send(vFrame(0x1, 0x5, 5, vReqBlock('5', vRefKV...)))
+	s.send(vFrame(0x1, 0x5, 5, vReqBlock('5', ref...)))
 	r := get()
 	vNote(fmt.Sprintf("scenario %d later request: goaway=%v/%d rst=%v headers=%v handled=%v", scenario, r.goaway, r.goawayCode, r.rst, r.headers, s.handled))
 	tag := [5]string{"malformed", "refused", "reset-by-us", "cancelled", "window-overflow"}[scenario]
